@@ -5,11 +5,15 @@ package transport
 // C02 — any in-flight change to a handshake aborts it; success means equal fresh keys.
 
 import (
+	"bytes"
 	"fmt"
 	"sync"
 	"testing"
 	"time"
 
+	"hop.computer/hop/authkeys"
+	"hop.computer/hop/certs"
+	"hop.computer/hop/keys"
 	"pgregory.net/rapid"
 	"verif.local/vlib"
 	"verif.local/vlib/simnet"
@@ -22,7 +26,77 @@ type c02Case struct {
 	Off    int  `json:"off"`
 	Mask   int  `json:"mask"`
 	Len    int  `json:"len"`
-	Same   bool `json:"sameIdentity"` // kind 3: the other handshake uses the same client identity
+	Same   bool `json:"sameIdentity"` // kind 3, 5: the other handshake uses the same client identity
+	// kind 5: the four session-id bytes (offsets 4..7) of a datagram that carries a session id are overwritten with the id
+	// of ANOTHER session of the same server: an established one, or (Pending) a half-open handshake whose ClientAuth never arrived
+	Pending bool `json:"pending,omitempty"`
+	// certificate policies of the two parties (indices into c02CliPolicies / c02SrvPolicies; 0 = CA store, the default)
+	CliPol int `json:"cliPolicy,omitempty"`
+	SrvPol int `json:"srvPolicy,omitempty"`
+}
+
+// Certificate policies under which an honest handshake of the fixture identities completes. The statement quantifies over
+// every handshake, whatever the certificate policy of the party that receives the altered datagram.
+var (
+	c02CliPolicies = []string{"ca-store", "skip-verify", "authorized-keys", "authorized-keys-else-ca-store", "ca-store+callback"}
+	c02SrvPolicies = []string{"ca-store", "skip-verify", "authorized-keys", "no-client-verification", "authorized-keys-else-ca-store", "ca-store+callback"}
+)
+
+func c02Policy(pol string, name certs.Name, trusted ...keys.DHPublicKey) *VerifyConfig {
+	w := vGetWorld()
+	vc := &VerifyConfig{Store: w.store(), CurrentTime: w.Now, Name: name}
+	switch pol {
+	case "no-client-verification":
+		return nil
+	case "skip-verify":
+		vc.Store = certs.Store{}
+		vc.InsecureSkipVerify = true
+	case "authorized-keys": // the peer's static key is an authorized key, nothing else is trusted
+		vc.Store = certs.Store{}
+		vc.AuthKeysAllowed = true
+		vc.AuthKeys = authkeys.NewSyncAuthKeySet()
+		for _, k := range trusted {
+			vc.AuthKeys.AddKey(k)
+		}
+	case "authorized-keys-else-ca-store": // authorized keys are tried first (the peer's key is not among them), then the CA store
+		vc.AuthKeysAllowed = true
+		vc.AuthKeys = authkeys.NewSyncAuthKeySet()
+		vc.AuthKeys.AddKey(keys.GenerateNewX25519KeyPair().Public)
+	case "ca-store+callback":
+		vc.AddVerifyCallback = func(*certs.Certificate) error { return nil }
+	}
+	return vc
+}
+
+func c02PolName(list []string, i int) string {
+	if i < 0 {
+		i = 0
+	}
+	return list[i%len(list)]
+}
+
+// c02Configs builds the configurations of the case: same identities as the common fixture, certificate policy as drawn.
+func c02Configs(c c02Case) (ServerConfig, func(second bool) ClientConfig) {
+	w := vGetWorld()
+	scfg := w.ServerConfig(c.Hidden)
+	if c.SrvPol != 0 {
+		scfg.ClientVerify = c02Policy(c02PolName(c02SrvPolicies, c.SrvPol), certs.Name{}, w.CliKey.Public, w.Cli2Key.Public)
+	}
+	return scfg, func(second bool) ClientConfig {
+		cc := w.ClientConfig(c.Hidden, second)
+		if c.CliPol != 0 {
+			cc.Verify = *c02Policy(c02PolName(c02CliPolicies, c.CliPol), w.ServerName, w.SrvKey.Public)
+		}
+		return cc
+	}
+}
+
+// c02HasSessionID: the handshake datagrams that carry a session id (at offsets 4..7).
+func c02HasSessionID(hidden bool, msg int) bool {
+	if hidden {
+		return msg == 1 // ServerResponseHidden
+	}
+	return msg == 3 || msg == 4 // ServerAuth, ClientAuth
 }
 
 var c02MsgNames = map[bool][]string{
@@ -60,33 +134,54 @@ type c02Outcome struct {
 	lens     []int
 	server   *SessionState
 	client   *SessionState
+	setupFailed    bool // the other handshake of the scenario did not get to the state the case asks for
+	sidOverwritten bool // kind 5: the session-id field was replaced by a different id
 }
 
 // c02Handshake runs one client handshake against a fresh server; alter is applied to the Msg-th handshake datagram.
 func c02Handshake(c c02Case, v *vlib.Verdict, serial int) (out c02Outcome) {
-	w := vGetWorld()
-	env := vStartServer(w.ServerConfig(c.Hidden))
+	scfg, ccfg := c02Configs(c)
+	env := vStartServer(scfg)
 	defer env.Stop()
-	var captured [][]byte // datagrams of the "other" handshake (kind 3)
-	if c.Kind == 3 && c.Msg >= 0 {
-		// run another complete handshake first and capture its datagrams
+	var captured [][]byte // datagrams of the "other" handshake (kind 3, 5)
+	var other *Client
+	var otherID []byte // kind 5: session id of the other session, as seen on the wire
+	if (c.Kind == 3 || c.Kind == 5) && c.Msg >= 0 {
+		// run another handshake first and capture its datagrams. Kind 5 with Pending: its ClientAuth is lost, so it
+		// stays half-open on the server (pending handshake state + allocated session id) for the handshake timeout
+		halfOpen := c.Kind == 5 && c.Pending && !c.Hidden
 		var mu sync.Mutex
 		env.Net.Filter = func(d simnet.Datagram) []simnet.Datagram {
 			if vIsHandshake(d.Data) {
 				mu.Lock()
-				captured = append(captured, d.Data)
+				captured = append(captured, append([]byte(nil), d.Data...))
 				mu.Unlock()
+				if halfOpen && MessageType(d.Data[0]) == MessageTypeClientAuth {
+					return nil
+				}
 			}
 			return []simnet.Datagram{d}
 		}
-		oc, _ := env.NewClient(vCli2Addr, w.ClientConfig(c.Hidden, !c.Same))
+		oc, _ := env.NewClient(vCli2Addr, ccfg(!c.Same))
 		err := oc.Handshake()
-		if err == nil {
+		if err == nil && !halfOpen {
 			if h, e2 := env.Srv.AcceptTimeout(time.Second); e2 == nil && h != nil {
 				c02NoteKeys(v, fmt.Sprintf("case%d-other", serial), oc.ss.clientToServerKey, oc.ss.serverToClientKey)
+				other = oc
 			}
 		}
 		defer oc.Close()
+		if c.Kind == 5 {
+			for _, m := range captured {
+				if t := MessageType(m[0]); (t == MessageTypeServerAuth || t == MessageTypeServerResponseHidden) && len(m) >= 8 {
+					otherID = m[4:8]
+				}
+			}
+			if otherID == nil || (!halfOpen && other == nil) {
+				out.setupFailed = true
+				return out
+			}
+		}
 	}
 	idx := 0
 	var mu sync.Mutex
@@ -125,10 +220,17 @@ func c02Handshake(c c02Case, v *vlib.Verdict, serial int) (out c02Outcome) {
 			if k < len(captured) {
 				d.Data = append([]byte(nil), captured[k]...)
 			}
+		case 5:
+			if len(d.Data) >= 8 && otherID != nil && !bytes.Equal(d.Data[4:8], otherID) {
+				copy(d.Data[4:8], otherID)
+				mu.Lock()
+				out.sidOverwritten = true
+				mu.Unlock()
+			}
 		}
 		return []simnet.Datagram{d}
 	}
-	cli, _ := env.NewClient(vCliAddr, w.ClientConfig(c.Hidden, false))
+	cli, _ := env.NewClient(vCliAddr, ccfg(false))
 	// virtual watchdog: a client that waits forever for a reply is not C02's subject (see C17); unblock it
 	hsDone := make(chan error, 1)
 	go func() { hsDone <- cli.Handshake() }()
@@ -150,6 +252,19 @@ func c02Handshake(c c02Case, v *vlib.Verdict, serial int) (out c02Outcome) {
 	if err == nil {
 		out.accepted = h
 		out.server = h.ss
+	}
+	if other != nil && v.OK() {
+		// the other, completed session is an independent session: whatever happened to this handshake, both of its
+		// parties still hold the same identifier and keys
+		os := other.ss
+		if ss := env.vEstablished(os.sessionID); ss != nil {
+			ss.m.Lock()
+			same := ss.clientToServerKey == os.clientToServerKey && ss.serverToClientKey == os.serverToClientKey
+			ss.m.Unlock()
+			if !same {
+				v.Failf("C02:keys-differ:other-session-after-altered-handshake", "the keys the server holds for the other, already completed session %x changed while an altered handshake of another client was processed", os.sessionID)
+			}
+		}
 	}
 	cli.Close()
 	return out
@@ -181,6 +296,14 @@ func c02Run(t *testing.T) func(c c02Case, v *vlib.Verdict) {
 			return
 		}
 		names := c02MsgNames[c.Hidden]
+		cliPol, srvPol := c02PolName(c02CliPolicies, c.CliPol), c02PolName(c02SrvPolicies, c.SrvPol)
+		v.Label("client-policy:" + cliPol)
+		v.Label("server-policy:" + srvPol)
+		if out.setupFailed {
+			v.Label("other-handshake-of-the-scenario-failed")
+			v.Discard = true
+			return
+		}
 		if c.Msg < 0 {
 			// honest run: must complete, with equal fresh keys
 			v.Label("honest")
@@ -222,15 +345,42 @@ func c02Run(t *testing.T) func(c c02Case, v *vlib.Verdict) {
 			altered = c.Msg < len(out.lens) && c.Len < out.lens[c.Msg]
 		case 3:
 			altered = true
+		case 5:
+			altered = c02HasSessionID(c.Hidden, c.Msg) && out.sidOverwritten
 		}
 		if !altered {
 			v.Discard = true
 			return
 		}
-		kind := []string{"xor", "truncate", "extend", "transplant", "truncate-after-priming"}[c.Kind]
+		kind := []string{"xor", "truncate", "extend", "transplant", "truncate-after-priming", "session-id-of-other-session"}[c.Kind]
+		if c.Kind == 5 && c.Pending && !c.Hidden {
+			kind = "session-id-of-pending-handshake"
+		}
 		v.NonTrivial = true
-		v.Key = fmt.Sprintf("%v/%s/%s/%d/%d/%d/%v", c.Hidden, name, kind, c.Off, c.Mask, c.Len, c.Same)
+		v.Key = fmt.Sprintf("%v/%s/%s/%d/%d/%d/%v/%s/%s", c.Hidden, name, kind, c.Off, c.Mask, c.Len, c.Same, cliPol, srvPol)
 		v.Label(map[bool]string{false: "discoverable", true: "hidden"}[c.Hidden] + ":" + name + ":" + kind)
+		// The certificate policy of the party that wrongly completed goes into the signature only when it matters: the
+		// same alteration is run again under the default policies, and the suffix is dropped if it is accepted there too.
+		polSig := func(judgeClient bool) string {
+			ps := ""
+			if judgeClient && c.CliPol != 0 {
+				ps = ":client-policy=" + cliPol
+			} else if !judgeClient && c.SrvPol != 0 {
+				ps = ":server-policy=" + srvPol
+			}
+			if ps == "" {
+				return ""
+			}
+			c0 := c
+			c0.CliPol, c0.SrvPol = 0, 0
+			var v0 vlib.Verdict
+			var out0 c02Outcome
+			r0 := vlib.Bubble(t, 60*time.Second, func() { out0 = c02Handshake(c0, &v0, serial) })
+			if !r0.Hung && r0.Panic == "" && ((judgeClient && out0.cliDone) || (!judgeClient && out0.accepted != nil)) {
+				return ""
+			}
+			return ps
+		}
 		receiverCompleted := false
 		if toClient {
 			receiverCompleted = out.cliDone
@@ -254,7 +404,7 @@ func c02Run(t *testing.T) func(c c02Case, v *vlib.Verdict) {
 				v.Label("hidden-request-of-other-handshake-answered(fresh-valid-request)")
 			}
 			if out.cliDone {
-				v.Failf("C02:altered-handshake-completes:ClientRequestHidden:transplant", "the client completed although its request was replaced by another handshake's request")
+				v.Failf("C02:altered-handshake-completes:ClientRequestHidden:transplant"+polSig(true), "the client completed although its request was replaced by another handshake's request")
 			}
 			return
 		}
@@ -263,7 +413,7 @@ func c02Run(t *testing.T) func(c c02Case, v *vlib.Verdict) {
 			if toClient {
 				who = "client"
 			}
-			v.Failf(fmt.Sprintf("C02:altered-handshake-completes:%s:%s", name, kind), "%s completed the handshake although %s was altered (%s off=%d mask=%#x len=%d of %d bytes)", who, name, kind, c.Off, c.Mask, c.Len, out.lens[c.Msg])
+			v.Failf(fmt.Sprintf("C02:altered-handshake-completes:%s:%s%s", name, kind, polSig(toClient)), "%s completed the handshake although %s was altered (%s off=%d mask=%#x len=%d of %d bytes; client policy %s, server policy %s)", who, name, kind, c.Off, c.Mask, c.Len, out.lens[c.Msg], cliPol, srvPol)
 		}
 	}
 }
@@ -348,24 +498,103 @@ func TestVerifC02Sweep(t *testing.T) {
 				if !emit(c02Case{Hidden: hidden, Msg: m, Kind: 3, Same: same}) {
 					return
 				}
+				// the session-id field replaced by the id of another live session of the same server
+				if c02HasSessionID(hidden, m) {
+					for _, pending := range []bool{false, true} {
+						if pending && hidden { // a hidden handshake is never half-open on the server
+							continue
+						}
+						if !emit(c02Case{Hidden: hidden, Msg: m, Kind: 5, Same: same, Pending: pending}) {
+							return
+						}
+					}
+				}
+			}
+		}
+		// certificate policies other than the CA store: the messages whose processing depends on the policy of the
+		// party that receives them (the ones carrying the peer's certificates) are swept again under each policy
+		type polCase struct {
+			cp, sp, msg int
+		}
+		var pols []polCase
+		ncp, nsp := 3, 4 // quick: skip-verify, authorized-keys (client); + no-client-verification (server)
+		if vlib.Thorough() {
+			ncp, nsp = len(c02CliPolicies), len(c02SrvPolicies)
+		}
+		toCli, toSrv := 3, 4 // ServerAuth, ClientAuth
+		if hidden {
+			toCli, toSrv = 1, 0 // ServerResponseHidden, ClientRequestHidden
+		}
+		for cp := 1; cp < ncp; cp++ {
+			pols = append(pols, polCase{cp, 0, toCli})
+		}
+		for sp := 1; sp < nsp; sp++ {
+			pols = append(pols, polCase{0, sp, toSrv})
+		}
+		for _, pc := range pols {
+			base := c02Case{Hidden: hidden, CliPol: pc.cp, SrvPol: pc.sp}
+			with := func(f func(c *c02Case)) c02Case { c := base; c.Msg = pc.msg; f(&c); return c }
+			hon := base
+			hon.Msg = -1
+			if !emit(hon) {
+				return
+			}
+			L := lens[pc.msg]
+			for o := 0; o < L; o++ {
+				masks := []int{0x01, 0x80}
+				if vlib.Thorough() || o < 8 || o >= L-33 {
+					masks = append(masks, 0xff)
+				}
+				for _, mk := range masks {
+					if !emit(with(func(c *c02Case) { c.Kind, c.Off, c.Mask = 0, o, mk })) {
+						return
+					}
+				}
+			}
+			for _, cut := range []int{1, 2, 16, 17, 32, 33} {
+				if l := L - cut; l >= 0 && !emit(with(func(c *c02Case) { c.Kind, c.Len = 1, l })) {
+					return
+				}
+			}
+			for _, same := range []bool{false, true} {
+				if !emit(with(func(c *c02Case) { c.Kind, c.Same = 3, same })) {
+					return
+				}
+				if c02HasSessionID(hidden, pc.msg) {
+					for _, pending := range []bool{false, true} {
+						if pending && hidden {
+							continue
+						}
+						if !emit(with(func(c *c02Case) { c.Kind, c.Same, c.Pending = 5, same, pending })) {
+							return
+						}
+					}
+				}
 			}
 		}
 	}
 	rec.SetExhaustive(complete)
-	rec.Extra("enumerated", "every handshake message of both modes: xor masks at byte offsets (thorough: every offset x {0x01,0x80,0xff}), truncation lengths, extensions, transplants from a concurrent handshake")
+	rec.Extra("enumerated", "every handshake message of both modes: xor masks at every byte offset, truncation lengths, extensions, transplants from a concurrent handshake, session-id field overwritten with the id of another established session / half-open handshake; the certificate-carrying messages again under each non-default certificate policy of their receiver")
 }
 
 func TestVerifC02Random(t *testing.T) {
 	lens := map[bool][]int{false: c02Baseline(t, false), true: c02Baseline(t, true)}
-	vlib.Drive(t, vlib.Spec[c02Case]{ID: "C02", Quick: 600, Run: c02Run(t), Gen: func(t *rapid.T) c02Case {
+	vlib.Drive(t, vlib.Spec[c02Case]{ID: "C02", Quick: 1000, Run: c02Run(t), Gen: func(t *rapid.T) c02Case {
 		c := c02Case{Hidden: rapid.Bool().Draw(t, "hidden")}
 		L := lens[c.Hidden]
 		c.Msg = rapid.IntRange(0, len(L)-1).Draw(t, "msg")
-		c.Kind = rapid.SampledFrom([]int{0, 0, 0, 0, 1, 3}).Draw(t, "kind")
+		c.Kind = rapid.SampledFrom([]int{0, 0, 0, 0, 1, 3, 5}).Draw(t, "kind")
+		if c.Kind == 5 && !c02HasSessionID(c.Hidden, c.Msg) {
+			c.Msg = map[bool][]int{false: {3, 4}, true: {1, 1}}[c.Hidden][rapid.IntRange(0, 1).Draw(t, "sidmsg")]
+		}
 		c.Off = rapid.IntRange(0, L[c.Msg]-1).Draw(t, "off")
 		c.Mask = rapid.IntRange(1, 255).Draw(t, "mask")
 		c.Len = rapid.IntRange(0, L[c.Msg]-1).Draw(t, "len")
 		c.Same = rapid.Bool().Draw(t, "same")
+		c.Pending = c.Kind == 5 && !c.Hidden && rapid.Bool().Draw(t, "pending")
+		// certificate policy of each party: uniform over the policies (half of the cases keep the default on one side)
+		c.CliPol = rapid.SampledFrom([]int{0, 1, 2, 3, 4}).Draw(t, "cliPolicy")
+		c.SrvPol = rapid.SampledFrom([]int{0, 1, 2, 3, 4, 5}).Draw(t, "srvPolicy")
 		return c
 	}})
 }
